@@ -79,7 +79,9 @@ def lua_loader(ctx: "Wtp", modname: str) -> Optional[str]:
         path = path.replace(" ", "_")
         path = re.sub(r"//+", "/", path)  # Replace multiple slashes by one
         path = re.sub(r"\.\.+", ".", path)  # Replace .. and longer by .
-        path = re.sub(r"^//+", "", path)  # Remove initial slashes
+        # Remove initial slashes: an absolute path would replace the whole
+        # left-hand side of LUA_DIR / prefix / path below
+        path = re.sub(r"^/+", "", path)
         path += ".lua"
 
         for prefix, exceptions in BUILTIN_LUA_SEARCH_PATHS:
